@@ -15,6 +15,7 @@ import numpy as np
 
 import geodepy.constants as gc
 from geodepy.transform import transform_mga94_to_mga2020, transform_mga2020_to_mga94
+from gpmc import cfg
 from gpmc import oracle_tm, oracle_misc as om, oracle_geod as og
 from gpmc.cfg import uniq, fill
 from gpmc.core import Sub, HarnessError
@@ -259,6 +260,9 @@ def ev_cov(case, rec):
                 rec.outcome('raise')
                 continue
             rec.nontriv((tuple(case['pt']), repr(m), direction))
+            if (len(repr(m)) + int(e)) % 3 == 0:
+                cfg.forms_agree(rec, lambda vf: fn(z, e, n, False if h is None else h, vf), m, r, 'transform:mga:vcv', one, co,
+                                'the MGA transformation')
             out = r[4]
             if not isinstance(out, np.ndarray) or out.shape not in ((3, 3), (3, 1)):
                 rec.fail('no local covariance returned', site='transform:mga:vcv-missing', observed=out, case=one, coords=co)
@@ -294,7 +298,24 @@ def ev_cov(case, rec):
     rec.sample({'pt': case['pt'], 'vcv': case['mats'][0]})
 
 
+def gen_const(tier, seed):
+    yield {'what': 'shipped parameter sets named by the property'}
+
+
+def ev_const(case, rec):
+    rec.transition()
+    rec.nontriv()
+    bad = cfg.published_trans_ok(['gda94_to_gda2020'])
+    rec.state(('constants', len(bad)))
+    for n, f, got, exp in bad:
+        rec.fail('shipped set %s does not carry its published value for %s' % (n, f), site='constants:%s:%s' % (n, f),
+                 observed=got, expected=exp)
+    rec.outcome('constants-ok' if not bad else 'constants-bad')
+    rec.sample({'published': {k: cfg.PUBLISHED_TRANS[k] for k in ['gda94_to_gda2020']}})
+
+
 SUBCHECKS = [
+    Sub('constants', gen_const, ev_const, chunk=1, floor=1, parallel=False),
     Sub('grid', gen, ev, chunk=2, floor=500, guard=True, envs=4),
     Sub('covariance', gen_cov, ev_cov, chunk=1, floor=50, guard=True, envs=2),
 ]
